@@ -64,8 +64,8 @@ static QUERIES: Lazy<Vec<String>> = Lazy::new(|| {
 fn query_form(q: u8) -> &'static str {
   match q {
     0..=5 => "full-id",
-    6..=8 => "#fragment",
-    _ => "fragment",
+    // "#frag" and "frag" are the same query class: one defect, one key
+    _ => "fragment-only",
   }
 }
 static URLS: Lazy<Vec<DIDUrl>> = Lazy::new(|| (0..NID).map(|i| DIDUrl::parse(id_str(i)).expect("universe id")).collect());
